@@ -152,8 +152,19 @@ def ob_warp_instant(shape, G, bpms, clean, budget_s=120):
         for p in V["ks"] + V["kd"]:
             far = p if symx.CTL.branch(z3.And(p >= ws, p < far)) else far
         t = eng.time_at(Beat(symx.SymInt(ws), 48), E.EventTag.WARP)
-        a = eng.beat_at(t, E.EventTag.WARP)
-        b = eng.beat_at(t)
+        # the two lookups in either order, optionally after an unrelated earlier lookup: the answer must not depend on
+        # the engine's lookup history
+        order = symx.choose("order", 3)
+        if order == 0:
+            a = eng.beat_at(t, E.EventTag.WARP)
+            b = eng.beat_at(t)
+        elif order == 1:
+            b = eng.beat_at(t)
+            a = eng.beat_at(t, E.EventTag.WARP)
+        else:
+            eng.beat_at(t + 1000)
+            b = eng.beat_at(t)
+            a = eng.beat_at(t, E.EventTag.WARP)
         return z3.And(_eq(symx, a, tc.tick(ws)), _eq(symx, b, tc.tick(far))), ("warp_instant", i)
     if not shape[3]:
         from vlib import symx
@@ -304,7 +315,13 @@ def replay(data):
             if ws <= p < far:
                 far = p
         t = eng.time_at(Beat(ws), EventTag.WARP)
-        a, b = eng.beat_at(t, EventTag.WARP), eng.beat_at(t)
+        order = int(g("order"))
+        if order == 0:
+            a = eng.beat_at(t, EventTag.WARP); b = eng.beat_at(t)
+        elif order == 1:
+            b = eng.beat_at(t); a = eng.beat_at(t, EventTag.WARP)
+        else:
+            eng.beat_at(t + 1000); b = eng.beat_at(t); a = eng.beat_at(t, EventTag.WARP)
         return (a != ws or b != far), f"at time {t!r} of warp start {ws}: beat_at(WARP)={a!r} (want {ws}), beat_at()={b!r} (want {far}); timing={c}"
     if func == "ob_monotone":
         t1, t2 = float(g("t")), float(g("t2"))
